@@ -41,6 +41,12 @@ pub fn judge_rebackup(t: &Tree, opts: &BOpts, tag: &str, scratch: &Scratch) -> V
             return v;
         }
     };
+    if stats.new_files != 0 || stats.modified_files != 0 {
+        v.push(Violation::new(
+            "C14:unchanged-tree-does-not-reuse-entries",
+            format!("{tag}: second backup counts {} new and {} modified files", stats.new_files, stats.modified_files),
+        ));
+    }
     let block_writes: Vec<&str> = log
         .iter()
         .filter(|r| r.verb == Verb::Write && r.path.starts_with("d/"))
@@ -147,6 +153,19 @@ pub fn hist_oracle(tr: &Transition) -> Vec<Violation> {
                         "C14:unchanged-source-writes-blocks",
                         format!("{}: {writes} block writes although the source equals the newest complete version b{last:04}", tr.at()),
                     ));
+                }
+                if let Some(stats) = tr.backup.and_then(|b| b.ok_stats()) {
+                    if stats.new_files != 0 || stats.modified_files != 0 {
+                        v.push(Violation::new(
+                            "C14:unchanged-source-does-not-reuse-entries",
+                            format!(
+                                "{}: {} new and {} modified files although the source equals the newest complete version b{last:04}",
+                                tr.at(),
+                                stats.new_files,
+                                stats.modified_files
+                            ),
+                        ));
+                    }
                 }
                 let new_band = *tr.child.snap.band_ids().last().unwrap();
                 let old: Vec<_> = tr.child.snap.band_entries(*last).into_iter().map(|e| (e.apath, e.addrs)).collect();
